@@ -18,7 +18,8 @@ func init() {
 			"NOT decided: nothing about mtime/inode beyond 'no file-system mutator is called on that path'; behaviour of go/parser on the input." +
 			" R1 also: under --print-only the echo of an unmatched file is unconditional; R4 also: the value tested against nil is nil unless a change produced a file." +
 			" R5 each file is processed once." +
-			" R6 the bytes kept until the echo are not a window into a re-used buffer (C03-R12).",
+			" R6 the bytes kept until the echo are not a window into a re-used buffer (C03-R12)." +
+			" R8 PosMatcher's verdict is validity equality (a token only one side has is a mismatch); R9 the import decision table has no further matching row.",
 		Trusted:     commonTrusted,
 		Assumptions: commonAssumptions,
 	})
@@ -44,6 +45,13 @@ func runC06(r *an.Run) {
 	relabel(r, "R3-anchoring-and-consumption", "R7-a-longer-list-is-not-a-match")
 	relabel(r, "R4-recorded-run-is-skipped-run", "R7-a-longer-list-is-not-a-match")
 	relabel(r, "R5-search-completeness", "R7-a-longer-list-is-not-a-match")
+	// a file in which nothing is an instance of the pattern is not reported as matched: an optional token the
+	// file has and the pattern lacks (f(xs...), type A = B, var ( x )) is a mismatch, as is the reverse
+	r.Rule("R8-a-token-only-one-side-has-is-a-mismatch")
+	posMatcherValidity(r)
+	// ... and an unnamed patch import does not match a named file import (the matcher's four-row table)
+	c10ImportTable(r)
+	relabel(r, "R3-import-table", "R9-the-import-table-has-no-further-matching-row")
 }
 
 func c06NoEffectPath(r *an.Run, m *runModel) {
